@@ -1,3 +1,12 @@
+// Reference implementation (specification) for the RealDecisionMaker verification framework.
+//
+// This file is NOT part of the repository build. The analyzer (/verif/analyzer) loads it as an
+// in-memory overlay next to the package it describes and compares, statically, the value graph of
+// every Spec_X declaration with that of the repository's X (see DESIGN.md, engine E5). Each
+// function states what the corresponding repository function has to compute according to
+// /verif/properties.jsonl; it was reviewed against the property statements, not generated at
+// check time, and it is never executed.
+
 package model
 
 import (
@@ -95,12 +104,12 @@ func (c *Criteria) Spec_First() Criterion {
 	return (*c)[0]
 }
 
+// C03/C05/C11-C14: +1 for gain criteria (the default for any type that is not "cost"), -1 for cost criteria
 func (c *Criterion) Spec_Multiplier() int8 {
-	if c.Type == Cost {
-		return -1
-	} else {
+	if c.Type != Cost {
 		return 1
 	}
+	return -1
 }
 
 func (c *Criterion) Spec_IsGain() bool {
